@@ -11,7 +11,7 @@ from sexpr import q
 from tracer import trace
 
 ID = "C03"
-THEOREMS = ["tokensTill_extent", "scanLine_step", "scanLine_newline", "pick_is_candidate", "pick_ambiguous_raises", "pick_none_raises"]
+THEOREMS = ["scanLine_calls", "pick_unique_ok", "findIdentifier_gap", "tokensTill_extent", "scanLine_step", "scanLine_newline", "pick_is_candidate", "pick_ambiguous_raises", "pick_none_raises"]
 LEANCHECKER_MODULES = ["Fadl.Props.C03", "Fadl.Props.C03Scan"]  # re-checked by leanchecker in the thorough tier
 RULE = (
     "generated source files (gen/layout.py) placing lambdas passed to Select/Where/SelectMany: single call; several calls "
